@@ -365,6 +365,9 @@ class Gen:
                                      "1e10", "6.02e23", "1.6e-19", "0.30000000000000004", "1e300", "3.0", "1e-7", "123456.7", "1234567.8"]), L_ATOM)
         if r < 0.85:
             self.tags.add("fraction")
+            if self.rng.random() < 0.04:
+                # a fraction beyond the float range (its approximation is printed as ~1e<digits>)
+                return (self.join(["(", self.rng.choice(["10^400", "-(10^330)", "7^500"]), "+", "1", ")", "/", self.rng.choice(["3", "7", "11"])]), L_PROD)
             return (self.join([self.int_lit(True), "/", self.rng.choice(["2", "3", "4", "7", "10", "6"])]), L_PROD)
         return (self.rng.choice(["pi", "e", "true", "false"]), L_ATOM)
 
